@@ -30,7 +30,7 @@ class C16(pw.P21Check):
     sizes = [1, 2, 3, 5, 8]
 
     def n_plans(self, tier):
-        return 3000 if tier == "quick" else 100000
+        return 10000 if tier == "quick" else 200000
 
     def time_budget(self, tier):
         return 120 if tier == "quick" else 1200
